@@ -507,14 +507,29 @@ impl Sim {
 	}
 
 	/// Set the feerate the node's estimator reports for its *own* channel-fee targets; the minimum
-	/// acceptable remote feerates stay at the floor so that an honest update is always acceptable.
+	/// acceptable remote feerates and the close minimum stay at the floor and the maximum estimate never
+	/// falls below any other target, so the estimator stays self-consistent (as a real one is) and an
+	/// honest update is always acceptable to the peer.
 	pub fn set_feerate(&mut self, node: usize, sat_per_kw: u32) {
 		let fe = self.w.nodes[node].fee_estimator;
+		let base = *fe.sat_per_kw.lock().unwrap();
 		let mut ov = fe.target_override.lock().unwrap();
 		ov.insert(ConfirmationTarget::MinAllowedAnchorChannelRemoteFee, 253);
 		ov.insert(ConfirmationTarget::MinAllowedNonAnchorChannelRemoteFee, 253);
+		ov.insert(ConfirmationTarget::ChannelCloseMinimum, 253);
 		ov.insert(ConfirmationTarget::AnchorChannelFee, sat_per_kw);
 		ov.insert(ConfirmationTarget::NonAnchorChannelFee, sat_per_kw);
+		let prev_max = ov.get(&ConfirmationTarget::MaximumFeeEstimate).cloned().unwrap_or(base);
+		let new_max = prev_max.max(sat_per_kw).max(base);
+		drop(ov);
+		// the fee market is global: every node's highest estimate (which scales the dust-exposure limit under
+		// the fee-rate-multiplier policy) follows it, otherwise peers with identical policies would disagree
+		// about the limit only because the harness fed them different markets
+		for nd in self.w.nodes.iter() {
+			let mut ov = nd.fee_estimator.target_override.lock().unwrap();
+			let cur = ov.get(&ConfirmationTarget::MaximumFeeEstimate).cloned().unwrap_or(*nd.fee_estimator.sat_per_kw.lock().unwrap());
+			ov.insert(ConfirmationTarget::MaximumFeeEstimate, cur.max(new_max));
+		}
 	}
 
 	/// Build an explicit single-path route over the given channel indices starting at `from`.
